@@ -152,8 +152,8 @@ theorem C19_summary (ds : Dataset) (p : Params) :
     | .ok (rs, _) => ∃ ls, summaryAnswer ds p = .ok (rs.length, ls) ∧ KeysSorted ls ∧
         ∀ x, lookupKey x ls = if boardingsOfLine ds rs x = 0 then none else some (boardingsOfLine ds rs x)
     | .noRouting _ => summaryAnswer ds p = .ok (0, []) := by
-  unfold summaryAnswer
-  cases h : routeAnswer ds p with
+  unfold summaryAnswer summaryAnswerCS routeAnswer
+  cases h : routeAnswerCS ds (ds.connSetOf (ds.scenarioOf p)) p with
   | exception w => exact ⟨w, rfl⟩
   | noRouting r => simp [summaryOf, summaryCounts]
   | ok a =>
